@@ -238,6 +238,105 @@ def judge(case) -> Outcome:
     return out
 
 
+# ---------------------------------------------------------------------------------------------
+# simulated likelihoods: the same relations when the formula contains a Monte-Carlo integral
+
+
+@st.composite
+def strat_simulated(draw, tier):
+    table, info = draw(gen.tables(min_rows=2, max_rows=12 if tier == 'thorough' else 8, with_choice=False, weight=True))
+    xs = info['real']
+    x1, x2 = draw(st.sampled_from(xs)), draw(st.sampled_from(xs))
+    n = len(table['columns'][0][2])
+    wcol = info['weight']
+    return dict(table=table, x1=x1, x2=x2, b=[draw(gen.dyadic(-1, 1)), draw(gen.dyadic(-1, 1))],
+                draw_type=draw(st.sampled_from(['NORMAL', 'UNIFORM', 'NORMAL_HALTON2', 'NORMAL_MLHS', 'UNIFORMSYM', 'NORMAL_ANTI'])),
+                R=draw(st.integers(1, 10)) * 2, np_seed=draw(st.integers(1, 10**6)),
+                weight=draw(st.sampled_from([None, ['Var', wcol], ['Times', ['Num', 2.0], ['Var', wcol]]])),
+                threads=sorted(set([1, 2, n, n + 2, 0])), simulate_first=draw(st.booleans()))
+
+
+def _observe_simulated(case):
+    import biogeme.biogeme as bio
+    from biogeme.expressions import Beta, Variable, bioDraws, MonteCarlo, exp, log
+    from biogeme.parameters import Parameters
+
+    res = {}
+    for t in case['threads']:
+        np.random.seed(case['np_seed'])
+        b1 = Beta('B_1', case['b'][0], None, None, 0)
+        s = Beta('sigma', case['b'][1], None, None, 0)
+        like = log(MonteCarlo(exp(b1 * Variable(case['x1']) + s * bioDraws('xi', case['draw_type']) * Variable(case['x2']))))
+        formulas = {'log_like': like}
+        if case['weight'] is not None:
+            formulas['weight'] = build.Builder([]).build(case['weight'])
+        params = Parameters()
+        params.set_value(name='number_of_threads', value=t)
+        params.set_value(name='number_of_draws', value=case['R'])
+        the = bio.BIOGEME(build.build_database(case['table']), formulas, parameters=params)
+        the.save_iterations = the.generate_html = the.generate_pickle = False
+        x = [case['b'][0], case['b'][1]]
+        one = {}
+        if case['simulate_first']:
+            one['sim0'] = _arr(the.simulate(dict(zip(the.free_beta_names, x)))['log_like'])
+        one['like'] = float(the.calculate_likelihood(x, scaled=False))
+        d = the.calculate_likelihood_and_derivatives(x, scaled=False, hessian=False, bhhh=False)
+        one['f'], one['g'] = float(d.function), _arr(d.gradient)
+        sim = the.simulate(dict(zip(the.free_beta_names, x)))
+        one['sim'] = _arr(sim['log_like'])
+        one['w'] = _arr(sim['weight']) if 'weight' in sim.columns else None
+        one['like_after'] = float(the.calculate_likelihood(x, scaled=False))
+        d2 = the.calculate_likelihood_and_derivatives(x, scaled=False, hessian=False, bhhh=False)
+        one['g_after'] = _arr(d2.gradient)
+        res[t] = one
+    return res
+
+
+def judge_simulated(case) -> Outcome:
+    out = Outcome()
+    rows = build.table_rows(case['table'])
+    n = len(rows)
+    w_ref = [1.0] * n if case['weight'] is None else [refsem.evaluate(case['weight'], refsem.Env(row=r), refsem.EVAlg()).v for r in rows]
+    out.nontrivial = n >= 3 and len(set(w_ref)) > 1
+    out.classes += [f'draws={case["draw_type"]}', 'simulate_first' if case['simulate_first'] else 'likelihood_first',
+                    'weighted' if case['weight'] is not None else 'unweighted']
+    res = isolate.call(_observe_simulated, case)
+    if not res['ok']:
+        out.fail(f'simulated:raises:{res["exc_type"]}', f'{res["exc_type"]}: {res["exc_msg"][:300]}')
+        return out
+    o = res['value']
+    first = None
+    for t in case['threads']:
+        one = o[t]
+        where = f' (number_of_threads={t}, {n} rows, {case["R"]} draws of type {case["draw_type"]}, simulate first: {case["simulate_first"]})'
+        w = one['w'] if one['w'] is not None else [1.0] * n
+        if len(one['sim']) != n or any(abs(a - b_) > 1e-12 * (1 + abs(b_)) for a, b_ in zip(w, w_ref)):
+            out.fail('simulated:simulate_rows', f'simulate returns {len(one["sim"])} rows / weights {w} for weights {w_ref}' + where)
+            return out
+        total = sum(wi * li for wi, li in zip(w, one['sim']))
+        scale = 1 + sum(abs(wi * li) for wi, li in zip(w, one['sim']))
+        if not abs(one['like'] - total) <= 1e-10 * scale:
+            out.fail('simulated:likelihood_vs_simulate', f'calculate_likelihood = {one["like"]!r}, simulate rows of the same object sum to {total!r}' + where)
+            return out
+        if one['like_after'] != one['like'] or not abs(one['f'] - one['like']) <= 1e-10 * scale:
+            out.fail('simulated:likelihood_changes', f'log likelihood {one["like"]!r} (with derivatives {one["f"]!r}) becomes {one["like_after"]!r} '
+                                                     f'after simulate() on the same object' + where)
+            return out
+        if one['g'] != one['g_after']:
+            out.fail('simulated:gradient_changes', f'gradient {one["g"]} becomes {one["g_after"]} after simulate()' + where)
+            return out
+        if 'sim0' in one and one['sim0'] != one['sim']:
+            out.fail('simulated:simulate_changes', 'two simulations of the same object differ' + where)
+            return out
+        if first is None:
+            first = one
+        elif not abs(one['like'] - first['like']) <= 1e-10 * scale:
+            out.fail('simulated:threads', f'log likelihood {one["like"]!r} with {t} threads, {first["like"]!r} with {case["threads"][0]} '
+                                          f'(same numpy seed, same draws)' + where)
+            return out
+    return out
+
+
 def render(case):
     return (f'log_like = {refsem.render(case["roots"][0], case["shared"])[:300]}, weight = '
             f'{refsem.render(case["weight"]) if case["weight"] else None}, {len(case["table"]["columns"][0][2])} rows, '
@@ -251,5 +350,11 @@ SUBCHECKS = [
              'likelihood vs sum of simulate rows, scaled variant, gradient/Hessian/BHHH vs weighted sums of per-observation '
              'derivatives; non-trivial: >= 3 rows, non-constant weights, unequal parts, a thread count above the row count',
              max_skip_fraction=0.3),
+    SubCheck('simulated', strat_simulated, judge_simulated,
+             lambda c: f"log(MonteCarlo(exp(B_1 {c['x1']} + sigma xi {c['x2']}))), xi ~ {c['draw_type']}, R={c['R']}, weight {c['weight']}",
+             dict(quick=400, thorough=8000),
+             'a mixed-logit-like simulated likelihood (native draw types, numpy seed fixed per object): likelihood == sum of weight x '
+             'simulate rows of the SAME object, unchanged by simulate() before or after, same for every thread count; non-trivial: '
+             '>= 3 rows and varying weights'),
 ]
-RULE = SUBCHECKS[0].rule
+RULE = ' | '.join(f'{s.name}: {s.rule}' for s in SUBCHECKS)
